@@ -27,6 +27,10 @@ class Enum:
     __slots__ = ('disc', 'payload', 'ty')
     def __init__(self, disc, payload=None, ty=None): self.disc, self.payload, self.ty = disc, (payload if payload is not None else Struct({})), ty
     def __repr__(self): return f"Enum<{self.ty or ''}>#{self.disc}{self.payload.f}"
+class MultiPayload:
+    """payload of an enum value whose variant is symbolic: one payload per variant name (read-only)"""
+    __slots__ = ('variants',)
+    def __init__(self, variants): self.variants = variants
 class Ref:
     __slots__ = ('c', 'k')
     def __init__(self, c, k): self.c, self.k = c, k
@@ -388,7 +392,14 @@ class Exec:
                         return obj.f, idx
                     return f
             m = re.match(r'^(.*) as (\w+|variant#\d+)$', inner)
-            if m: return self._c_place(m.group(1))
+            if m:
+                base = self._c_place(m.group(1)); vname = m.group(2)
+                def f(fr):
+                    c, k = base(fr); obj = c[k]
+                    if obj.__class__ is Enum and obj.payload.__class__ is MultiPayload:
+                        return {'d': Enum(obj.disc, obj.payload.variants[vname], obj.ty)}, 'd'
+                    return c, k
+                return f
         raise Unsupported('place? ' + s)
 
     def _c_const(self, s):
@@ -736,15 +747,19 @@ class Exec:
         """dispatch a MIR call: model override > crate function > model"""
         h = self.models.lookup(self, callee)
         if h is not None and h.first:
-            self.modelled.add(h.name); return h(self, callee, args)
+            r = h(self, callee, args)
+            if r is not NotImplemented: self.modelled.add(h.name); return r
         name = self.resolve_callee(callee, args)
         if isinstance(name, tuple):
             name = self.resolver.resolve_dyn(name[1], name[2], args, name[3])
         if name is not None: return self.call(name, args)
         if h is not None:
-            self.modelled.add(h.name); return h(self, callee, args)
+            r = h(self, callee, args)
+            if r is not NotImplemented: self.modelled.add(h.name); return r
         r = self.models.dynamic(self, callee, args)
         if r is not NotImplemented: return r
+        norm = _NORM_RE.sub('', callee)
+        if norm != callee: return self.call_callee(norm, args)
         raise Unsupported('no model for ' + callee)
 
     def call(self, fname, args):
@@ -828,6 +843,7 @@ def _unescape(t):
     try: return bytes(t, 'utf-8').decode('unicode_escape') if '\\' in t else t
     except Exception: return t
 
+_NORM_RE = re.compile(r'\b(?:std|core|alloc)::(?:string|vec|boxed|option|clone|cmp|default|convert|iter|marker|hash|ops|str|slice)::(?=[A-Z])')
 _BINOPS = {
     'Eq': lambda a, b: a == b, 'Ne': lambda a, b: a != b,
     'Lt': lambda a, b: z3.ULT(a, b), 'Le': lambda a, b: z3.ULE(a, b), 'Gt': lambda a, b: z3.UGT(a, b), 'Ge': lambda a, b: z3.UGE(a, b),
